@@ -155,7 +155,8 @@ func (d *TransactionDeclaration) Doc(ctx PrettyContext) prettier.Doc {
 		transactionKeywordDoc,
 	}
 
-	if !d.ParameterList.IsEmpty() {
+	// NOTE: also print an empty parameter list. nil means there is no parameter list
+	if d.ParameterList != nil {
 		doc = append(
 			doc,
 			d.ParameterList.Doc(ctx),
